@@ -12,6 +12,7 @@ parser.
 """
 
 import ast
+import os
 import sys
 from collections import OrderedDict
 from copy import deepcopy
@@ -25,7 +26,7 @@ import cdd.pydantic.parse
 import cdd.shared.docstring_parsers
 import cdd.sqlalchemy.parse
 
-from vcdd import core
+from vcdd import REPO, core
 from vcdd.gen import corpus, docgen, irgen
 from vcdd.monitors import contracts
 from vcdd.oracle import hops
@@ -270,7 +271,7 @@ def setup_shard(ctx, P):
 def streams(ctx):
     return [("emitted", ctx.scale(400, 3000)), ("docstrings", ctx.scale(5000, 50000)), ("functions", ctx.scale(2000, 20000)),
             ("tokens", ctx.scale(8000, 100000)), ("sqlalchemy_hand", ctx.scale(2500, 25000)),
-            ("corpus_defs", len(corpus.definitions())), ("corpus_docs", len(corpus.docstrings()))]
+            ("corpus_defs", len(corpus.definitions())), ("corpus_docs", len(corpus.docstrings())), ("suite", 1)]
 
 
 def gen_function(r):
@@ -386,6 +387,25 @@ def run_case(ctx, P, stream, idx):
                 parser(deepcopy(node))
             except Exception:
                 P.count("parse.raised")
+        CUR.update(P=None)
+        return
+    if stream == "suite":
+        # the repository's own test-suite as a workload: its mocks (keras / torch / tensorflow style classes, functions,
+        # argparse functions, SQLAlchemy models, schemas) reach the parsers while the contracts observe; whether a test
+        # passes is not this check's business
+        import contextlib
+        import io
+
+        import pytest
+
+        before = sum(P.monitors.values())
+        buf = io.StringIO()
+        with contextlib.redirect_stdout(buf), contextlib.redirect_stderr(buf):
+            pytest.main(["-q", "-p", "no:cacheprovider", "--no-header", "--deselect",
+                         "cdd/tests/test_compound/test_exmod.py", "--rootdir", REPO, os.path.join(REPO, "cdd", "tests")])
+        seen = sum(P.monitors.values()) - before
+        P.case({"suite": "cdd/tests"}, nontrivial=seen > 0, klass="suite", sample={"suite": "cdd/tests", "parser_returns_observed": seen})
+        P.count("suite.parser-returns-observed", seen)
         CUR.update(P=None)
         return
     if stream in ("corpus_defs", "corpus_docs"):
